@@ -70,6 +70,16 @@ M = [
   "InlineWakerVec::wake forwards only when the bit was already set (Vec / group containers)"),
  ("c01_mt_wake_parent_before_setbit", "C01", [(WA, WAKE_OLD, WAKE_NEW), (WV, WAKE_OLD, WAKE_NEW)],
   "Inline wakers wake the parent task first and set the child's bit afterwards, in a second critical section: only a real interleaving of a foreign waker thread with the poller exposes it (engine B; engine A's atomic wakes are blind to it by construction)"),
+ ("c01_set_waker_skipped_every_256th_poll", "C01", [(RA,
+  "    pub(crate) fn set_waker(&mut self, parent_waker: &Waker) {\n        match &mut self.parent_waker {",
+  "    pub(crate) fn set_waker(&mut self, parent_waker: &Waker) {\n        self.polls = self.polls.wrapping_add(1);\n        if self.polls == 0 && self.parent_waker.is_some() {\n            return;\n        }\n        match &mut self.parent_waker {"),
+  (RA, "    parent_waker: Option<Waker>,\n}", "    parent_waker: Option<Waker>,\n    polls: u8,\n}"),
+  (RA, "            parent_waker: None,\n        }", "            parent_waker: None,\n            polls: 0,\n        }")],
+  "ReadinessArray keeps an 8-bit poll counter and skips storing the parent waker on every 256th poll: needs a combinator polled more than 255 times with a changed waker (marathon runs)"),
+ ("c01_join_lock_held_across_child_drop", "C01", [(JA,
+  "                    unsafe { ManuallyDrop::drop(fut.get_unchecked_mut()) };\n                }\n\n                // Lock readiness so we can use it again\n                readiness = this.wakers.readiness();\n",
+  "                    readiness = this.wakers.readiness();\n                    unsafe { ManuallyDrop::drop(fut.get_unchecked_mut()) };\n                } else {\n                    readiness = this.wakers.readiness();\n                }\n")],
+  "array join re-takes the readiness lock before it drops a completed child: a child whose destructor wakes a sibling (F14) self-deadlocks"),
  ("c02_join_completed_child_not_dropped", "C02", [(JA, "                    unsafe { ManuallyDrop::drop(fut.get_unchecked_mut()) };\n", "")],
   "array join never drops a child that completed (leak)"),
  ("c02_try_join_err_marks_ready", "C02", [(TA, "                            this.state[i].set_none();\n", "                            this.state[i].set_ready();\n")],
